@@ -1121,6 +1121,7 @@ def r123(ctx, repo):
     # Statistics.get_feature: finite values of the selected events
     gf = repo.func(STAT, "Statistics.get_feature")
     bad = None
+    bad_call = None
     tags = [None, "nan", None, "inf", None, None]
     for enabled in (True, False):
         for mask in ([True, True, False, True, True, False], [True] * 6,
@@ -1147,16 +1148,54 @@ def r123(ctx, repo):
                 continue
             want = [i for i in range(6) if tags[i] is None
                     and (mask[i] or not enabled)]
-            got = [e.i for e in out] if isinstance(out, Arr) else out
+
+            def show(seq):
+                if not isinstance(seq, Arr):
+                    return seq
+                return [(e.tag or e.i) if isinstance(e, Ev) else e
+                        for e in seq]
+            got = show(out)
             if got != want:
                 bad = bad or (f"enable filters={enabled}, filter {mask}, "
-                              f"values {tags}: returned events {got}, "
-                              f"expected {want}")
+                              f"values {tags}: returned values {got}, "
+                              f"expected the finite values of events {want} "
+                              f"(invalid values have to be removed, a "
+                              f"statistic must not see them or count them)")
+            # end to end: what a registered feature statistic is applied to
+            seen = []
+            me2 = SelfModel(mini2, repo.cls(STAT, "Statistics"),
+                            name="Stat", req_feature=True,
+                            method=lambda data: (seen.append(data), 1.0)[1])
+            dsm = D()
+            dsm.title = "t"
+            try:
+                mini2.call(repo.func(STAT, "Statistics.__call__"), (me2,),
+                           dict(ds=dsm, feature="deform"))
+            except ModelFault as e:
+                bad_call = bad_call or str(e)
+                continue
+            if want and (len(seen) != 1 or show(seen[0]) != want):
+                bad_call = bad_call or (
+                    f"enable filters={enabled}, filter {mask}, values "
+                    f"{tags}: the statistic is applied to "
+                    f"{[show(s) for s in seen]}, expected the finite values "
+                    f"of events {want}")
+            if not want and seen and len(seen[0]):
+                bad_call = bad_call or (
+                    f"enable filters={enabled}, filter {mask}: the "
+                    f"statistic is applied to {show(seen[0])} although no "
+                    f"valid event is selected")
     ctx.ob("R12.3", bad is None,
            "get_feature returns the finite values of the selected events "
            "(all events with filters disabled)" if bad is None else
            f"get_feature: {bad}", node=gf, label="get_feature selection "
                                                   "and purge")
+    ctx.ob("R12.3", bad_call is None,
+           "a feature statistic is applied to exactly the finite values of "
+           "the selected events (their number is the sample size)"
+           if bad_call is None else f"Statistics.__call__: {bad_call}",
+           node=repo.func(STAT, "Statistics.__call__"),
+           label="statistic applied to finite selected values")
 
 
 # ----------------------------------------------------------------------
@@ -1442,7 +1481,7 @@ def _cfg_stmt(cfg, st):
 def r126(ctx, repo):
     f = repo.func(CORE, "RTDCBase.get_downsampled_scatter")
     cls = repo.cls(CORE, "RTDCBase")
-    bad = {"data": None, "mask": None}
+    bad = {"data": None, "mask": None, "values": None}
     n_eval = 0
     for mask in ([True, False, True, True, False, True],
                  [False, False, True, True, True, True],
@@ -1482,18 +1521,30 @@ def r126(ctx, repo):
             mini.bind_module(repo.tree(CORE))
             n = len(mask)
 
+            # feature values: one inf and one nan among the events, so that
+            # a store into the selected values (or an alias of them) shows
+            vtags = {1: "nan", n - 1: "inf", 2: "inf"}
+
+            class Vals(Feat):
+                def all_events(self):
+                    return [Ev(self.name, i, vtags.get(i))
+                            for i in range(self.n)]
+
             class Me(SelfModel):
                 def __getitem__(self, k):
-                    return Feat(k, n)
+                    return Vals(k, n)
 
                 def __len__(self):
                     return n
             me = Me(mini, cls, filter=NS("filter", all=Arr(mask, "bool")))
             tag = f"filter {mask}, downsampler keeps {pick}"
+            # both return forms: (x, y, mask) and (x, y)
+            with_mask = n_eval % 3 != 0
+            tag += f", ret_mask={with_mask}"
             try:
                 res = mini.call(f, (me,), dict(
                     xax="area_um", yax="deform", downsample=3,
-                    ret_mask=True))
+                    ret_mask=with_mask))
             except ModelFault as e:
                 for k in bad:
                     bad[k] = bad[k] or f"{tag}: {e}"
@@ -1501,20 +1552,52 @@ def r126(ctx, repo):
             sel = [i for i, b in enumerate(mask) if b]
             want = [i for i, b in zip(sel, pick) if b]
             try:
-                x, y, m = res
+                if with_mask:
+                    x, y, m = res
+                else:
+                    x, y = res
+                    m = None
             except (TypeError, ValueError):
                 bad["data"] = bad["data"] or f"{tag}: returns {res!r}"
                 continue
-            gx = [(e.feat, e.i) for e in x]
-            gy = [(e.feat, e.i) for e in y]
+            # which events are returned (a value overwritten by a constant
+            # is judged by the `values` obligation, by position)
+            def ident(seq, name):
+                out = []
+                for j, e in enumerate(seq):
+                    if isinstance(e, Ev) and e.feat == "const" \
+                            and j < len(want):
+                        out.append((name, want[j]))
+                    else:
+                        out.append((e.feat, e.i) if isinstance(e, Ev)
+                                   else e)
+                return out
+            gx, gy = ident(x, "area_um"), ident(y, "deform")
             if gx != [("area_um", i) for i in want] or gy != [
                     ("deform", i) for i in want]:
                 bad["data"] = bad["data"] or (
                     f"{tag}: returned x events {gx}, y events {gy}; the "
                     f"kept selected events are {want}")
+            for nm, got_ in (("x", x), ("y", y)):
+                chg = [(want[j], vtags.get(want[j]) or "finite",
+                        (e.tag if isinstance(e, Ev) else e) or "finite")
+                       for j, e in enumerate(got_) if j < len(want)
+                       and (e.tag if isinstance(e, Ev) else e)
+                       != vtags.get(want[j])]
+                if chg:
+                    bad["values"] = bad["values"] or (
+                        f"{tag}: the returned {nm} values of events "
+                        f"{[c[0] for c in chg]} are not the dataset's "
+                        f"values (dataset {[c[1] for c in chg]}, returned "
+                        f"{[c[2] for c in chg]}): the selected data, or an "
+                        f"alias of them such as the result of a linear "
+                        f"scaling, are modified in place before they are "
+                        f"returned")
+            if not with_mask:
+                continue
             gm = [i for i, b in enumerate(m) if b] if isinstance(
                 m, Arr) else None
-            if gm != want or len(m) != n:
+            if gm != want or not isinstance(m, Arr) or len(m) != n:
                 bad["mask"] = bad["mask"] or (
                     f"{tag}: the mask marks events {gm} (length "
                     f"{len(m) if isinstance(m, Arr) else '?'}), the "
@@ -1527,6 +1610,11 @@ def r126(ctx, repo):
            "the returned mask has the length of the dataset and marks "
            "exactly the returned events" if bad["mask"] is None
            else bad["mask"], node=f, label="downsampled mask")
+    ctx.ob("R12.6", bad["values"] is None,
+           "the returned x / y are the dataset's own values of those "
+           "events (nothing is stored into the selected data or an alias "
+           "of them)" if bad["values"] is None else bad["values"], node=f,
+           label="downsampled values unchanged")
     ctx.stat("R12.6 evaluations", n_eval)
 
 
@@ -1550,7 +1638,7 @@ def run(ctx):
     ctx.rule("R12.5", "bin-width helpers purge NaN / inf and take every "
              "statistic from the purged value (siblings agree)", minimum=6)
     ctx.rule("R12.6", "downsampled scatter: mask and returned data mark the "
-             "same selected events", minimum=2)
+             "same selected events, values unchanged", minimum=3)
     r124(ctx, repo)
     r125(ctx, repo)
     r126(ctx, repo)
@@ -1870,5 +1958,41 @@ MUTANTS = list(MUTANTS) + [
       ("    def get_downsampled_scatter(self,",
        _HELPER_XY.replace("y = self[yax][self.filter.all]",
                           "y = self[yax]"))], "R12.1"),
+]
+
+
+_SCALED = ("        ys = RTDCBase._apply_scale(y, yscale, yax)\n\n"
+           "        _, _, idx = downsampling.downsample_grid(")
+
+MUTANTS = list(MUTANTS) + [
+    ("downsampling: inf replaced in place in the scaled arrays (seeded)",
+     CORE,
+     (_SCALED,
+      "        ys = RTDCBase._apply_scale(y, yscale, yax)\n"
+      "        for sc in (xs, ys):\n"
+      '            if sc.dtype.kind == "f":\n'
+      "                sc[np.isinf(sc)] = np.nan\n\n"
+      "        _, _, idx = downsampling.downsample_grid("), "R12.6"),
+    ("downsampling: nan of the selected x data zeroed before returning",
+     CORE,
+     ("            return x[idx], y[idx]\n",
+      "            x[np.isnan(x)] = 0\n            return x[idx], y[idx]\n"),
+     "R12.6"),
+]
+
+TWINS = list(TWINS) + [
+    ("downsampling: scaled arrays copied before use", CORE,
+     (_SCALED,
+      "        ys = RTDCBase._apply_scale(y, yscale, yax)\n"
+      "        xs = np.array(xs, copy=True)\n"
+      "        ys = np.array(ys, copy=True)\n\n"
+      "        _, _, idx = downsampling.downsample_grid(")),
+    ("downsampling: invalid events probed without storing", CORE,
+     (_SCALED,
+      "        ys = RTDCBase._apply_scale(y, yscale, yax)\n"
+      '        if xs.dtype.kind == "f":\n'
+      "            n_inf = int(np.sum(np.isinf(xs)))\n"
+      "            del n_inf\n\n"
+      "        _, _, idx = downsampling.downsample_grid(")),
 ]
 
